@@ -108,6 +108,9 @@ func runMode(args []string) {
 	if *prop == "C05" {
 		debug.SetMaxStack(192 << 20)
 	}
+	if *prop == "C04" {
+		debug.SetMaxStack(512 << 20) // 64 KiB of nesting needs well under 100 MiB; runaway recursion is unbounded anyway
+	}
 	w := bufio.NewWriterSize(os.Stdout, 1<<16)
 	sum := Summary{T: "sum", Prop: *prop, From: *from, To: *to, Tags: map[string]int{}, Classes: map[string]int{}, Policies: map[string]int{}, NumCPUs: map[string]int{}}
 	fps := map[string]bool{}
@@ -217,6 +220,9 @@ func serveMode() {
 			} else {
 				if c.Prop == "C05" {
 					debug.SetMaxStack(192 << 20)
+				}
+				if c.Prop == "C04" {
+					debug.SetMaxStack(512 << 20)
 				}
 				emit(w, map[string]any{"t": "begin", "id": c.ID})
 				o := exec(&c)
